@@ -85,7 +85,7 @@ func (a Any) SemanticTokens(ctx context.Context) []lang.SemanticToken {
 		}
 
 		cons := schema.Object{
-			Attributes:            ctyObjectToObjectAttributes(typ),
+			Attributes:            ctyObjectToAnyExprObjectAttributes(typ),
 			AllowInterpolatedKeys: true,
 		}
 		return newExpression(a.pathCtx, expr, cons).SemanticTokens(ctx)
